@@ -73,6 +73,14 @@ def clipIdx (n a : Int) : Nat :=
 def rowSlice {α : Type} (arr : Int → Int → α) (n0 n1 : Int) (i lo hi : Int) : List α :=
   (List.range' (clipIdx n1 lo) (clipIdx n1 hi - clipIdx n1 lo)).map fun (j : Nat) => arr (wrap n0 i) (j : Int)
 
+/-- `(arr[i, lo:hi] & c) == 0`: the mask of a row slice -/
+def rowMaskZero (arr : Int → Int → Int) (n0 n1 i lo hi c : Int) : List Bool :=
+  (rowSlice arr n0 n1 i lo hi).map fun x => decide (band x c = 0)
+
+/-- every cell of `arr[i, lo:hi]` is non-negative (`&` is defined there) -/
+def rowNonneg (arr : Int → Int → Int) (n0 n1 i lo hi : Int) : Bool :=
+  (rowSlice arr n0 n1 i lo hi).all fun x => decide (0 ≤ x)
+
 /-- the indices of `a[lo:hi]` on an axis of length `n` -/
 def sliceIdx (n lo hi : Int) : List Nat := List.range' (clipIdx n lo) (clipIdx n hi - clipIdx n lo)
 
